@@ -399,6 +399,12 @@ func initNetipModels() {
 		}
 		return arr
 	})
+	models[p+"IPv4Unspecified"] = pure(func(c *Ctx, m *mctx) *Term {
+		return c.mkAddr(c.BV(0, 64), c.BV(0xffff00000000, 64), c.BV(z4, 8)) // 0.0.0.0
+	})
+	models[p+"IPv6Unspecified"] = pure(func(c *Ctx, m *mctx) *Term {
+		return c.mkAddr(c.BV(0, 64), c.BV(0, 64), c.BV(z6, 8)) // ::
+	})
 	models[p+"AddrFrom4"] = pure(func(c *Ctx, m *mctx) *Term {
 		arr := m.args[0]
 		lo := c.BV(0xffff, 32)
